@@ -108,6 +108,8 @@ def gen_problem(rng, scalar=None, family=None, N=None, S=None, ctor=None, weight
         build.append(["weights", [hx(v, scalar) for v in w]])
     if eps is not None:
         build.append(["eps", hx(eps, scalar)])
+    # the order of builder calls must not matter: weights / epsilon before or after the observations
+    rng.shuffle(build)
     return {"scalar": scalar, "ctor": ctor, "model": spec, "faults": None, "build": build, "ops": [],
             "meta": {"family": family, "N": N, "M": M, "P": P, "S": S, "weights": wkind, "range": [lo, hi]}}
 
